@@ -1,5 +1,5 @@
 import slayer
-from props.scommon import scen, preempt_scenario
+from props.scommon import scen, preempt_scenario, pp_exact_fit_scenario
 """C12 - priority: strict priority order, work conservation, query-only preemption"""
 
 
